@@ -25,11 +25,21 @@ N = secp.N
 H = 1 << 31
 
 
+_POOL = {}
+
+
 def _parent(case):
+    """case['reuse']: the same public parent OBJECT is used again when the same parent recurs."""
     xk = bridge.xkey_from_case(case)
     pub = xk.neuter()
-    node = bridge.mk_node(pub, case["testnet"], case.get("form", "ctor"), public=True)
-    return xk, pub, node
+    if not case.get("reuse"):
+        return xk, pub, bridge.mk_node(pub, case["testnet"], case.get("form", "ctor"), public=True)
+    key = (case.get("k"), case.get("K"), case["c"], case["depth"], case["pindex"], case["pfp"], case["testnet"], case.get("form", "ctor"))
+    if key not in _POOL:
+        if len(_POOL) > 200:
+            _POOL.clear()
+        _POOL[key] = bridge.mk_node(pub, case["testnet"], case.get("form", "ctor"), public=True)
+    return xk, pub, _POOL[key]
 
 
 def _cls(case):
@@ -223,9 +233,32 @@ def run(ctx):
                             "ktag": "K:corpus", "ctag": "c:random", "testnet": bool(n & 1),
                             "form": ("ctor", "str")[n % 2], "index": i}
                     judge_ckd_pub(ctx, case)
+        recent = []
         for _ in range(ctx.scale(2200, 300000)):
-            case = gen_pub_parent(rnd, lzx)
-            case["index"] = gen.index(rnd, hardened=False)[1]
+            if recent and rnd.random() < 0.35:
+                case = dict(rnd.choice(recent))           # same parent object: repeated / new index
+                if rnd.random() < 0.6:
+                    case["index"] = gen.index(rnd, hardened=False)[1]
+            else:
+                case = gen_pub_parent(rnd, lzx)
+                case["index"] = gen.index(rnd, hardened=False)[1]
+                if recent and rnd.random() < 0.3:
+                    # twins of an earlier parent: same public key with another chain code, same chain code with another key,
+                    # other network, other depth - with the SAME index
+                    tw = dict(rnd.choice(recent))
+                    which = rnd.choice(["c", "c", "k", "net", "depth"])
+                    if which == "c":
+                        tw["c"] = gen.rbytes(rnd, 32)
+                    elif which == "k":
+                        tw["k"] = gen.scalar(rnd)[1]
+                    elif which == "net":
+                        tw["testnet"] = not tw["testnet"]
+                    elif 0 < tw["depth"] < 254:
+                        tw["depth"] += 1
+                    case = tw
+            case["reuse"] = True
+            recent.append(case)
+            del recent[:-12]
             judge_ckd_pub(ctx, case)
         for _ in range(ctx.scale(150, 12000)):
             case = gen_pub_parent(rnd, lzx)
